@@ -48,7 +48,8 @@ def flatten(b, ctx: BitCtx, problems):
         if b.k == "gamma":
             return [("alt", show(b.a[0]), flatten_any(b.a[1], ctx, problems), flatten_any(b.a[2], ctx, problems))]
         return [("bytes", canon_bytes_key(b), repr(linearize(length(b))))]
-    for it in b.a[0]:
+    items = _merge_crc_octets(list(b.a[0]))
+    for it in items:
         k = it.k
         if k == "u8":
             bv = norm_bits(it.a[0], ctx)
@@ -105,6 +106,34 @@ def flatten(b, ctx: BitCtx, problems):
             out.append(("rep", show(it.a[0]), flatten(it.a[1], ctx, problems)))
         else:
             problems.append(f"unknown item {k}")
+    return out
+
+
+def _merge_crc_octets(items):
+    """a CRC written octet by octet - u8(crc >> 8 [& 0xff]) followed by u8(crc & 0xff) of the same CRC term - is the same
+    trailer as packed('!H', crc)"""
+    def hi_of(v):
+        if v.k == "op" and v.a[0] == "&" and is_const(v.a[2], 0xFF):
+            v = v.a[1]
+        if v.k == "op" and v.a[0] == ">>" and is_const(v.a[2], 8) and v.a[1].k == "crc16v":
+            return v.a[1]
+        return None
+
+    def lo_of(v):
+        if v.k == "op" and v.a[0] == "&" and is_const(v.a[2], 0xFF) and v.a[1].k == "crc16v":
+            return v.a[1]
+        return None
+    out, i = [], 0
+    while i < len(items):
+        a = items[i]
+        if a.k == "u8" and i + 1 < len(items) and items[i + 1].k == "u8":
+            h, l_ = hi_of(a.a[0]), lo_of(items[i + 1].a[0])
+            if h is not None and l_ is not None and h == l_:
+                out.append(T("packed", "!H", h))
+                i += 2
+                continue
+        out.append(a)
+        i += 1
     return out
 
 
